@@ -520,6 +520,9 @@ func (w *tokWorld) serverCase(cfg *security.SecurityConfig, k *srvCase) Case {
 	c := w.c
 	w.describeToken(k.hp, false)
 	res := w.runServer(cfg, k)
+	if res.m2.ok && res.m2.status == 0 {
+		tokNonces.note(c, "RB", res.m2.rb, "server case "+k.label, w.ops)
+	}
 	// the server's own proof, as the protocol defines it, so that it can be named if it appears
 	cv := viewClaims(segOf(k.hp, 1))
 	if res.m2.ok && res.m2.status == 0 {
@@ -688,6 +691,8 @@ func runOneServer(c *Ctx, m *tokMat, d srvDev, extra func(g *tgen, k *srvCase)) 
 func runToken(c *Ctx) error {
 	c.Res.Rule = "real token server vs scripted client, real token client vs scripted server (security.PerformTokenAuthenticationDemo over a single-threaded in-memory connection; real keys through an in-memory CredentialReader; tokens minted relative to the wall clock) and security.VerifyIDToken: a valid exchange/token and ONE deviation from it per case (catalogue = the labels of the distribution: token bit flips incl. every bit of short tokens, other/unknown/unreadable/path-like keys, kid forms, exp/iat at and around the boundary, max-age sources, announced id vs sub, wrong/truncated/empty/reflected/mis-keyed proofs, nonce echoes, status codes, trailing bytes, missing EOM, truncation, frame cuts), a refused message 1 followed by the publicly computable proof, random pairs of deviations, malformed byte streams and random field sequences; distinct by label+token+verdict; every case is non-trivial (a full exchange or verification)"
 	m := newTokMat(c)
+	tokNonces.reset()
+	tokenFreshness(c, m)
 	var cases []Case
 	devs := serverDeviations()
 	rounds := c.Pick(12, 150)
@@ -1017,6 +1022,9 @@ func (w *tokWorld) clientCase(k *cliCase) Case {
 	}
 	w.describeToken(k.tokenStr, true)
 	res := w.runClient(k)
+	if res.m1 != nil && res.m1.ok && res.m1.status == 0 {
+		tokNonces.note(c, "RA", res.m1.ra, "client case "+k.label, w.ops)
+	}
 	if p := strings.Split(k.tokenStr, "."); len(p) == 3 && res.m2 != nil {
 		// the proof the protocol expects in message 2 under the client's own signature
 		if m2 := parseM2raw(res.m2.payload); m2 != nil {
